@@ -10,6 +10,7 @@ import (
 	"fmt"
 	"io"
 	"log"
+	"math"
 	"net"
 	"os"
 	"slices"
@@ -378,13 +379,12 @@ func (s *Service) handleConn(conn net.Conn) {
 		}
 		sz := binary.LittleEndian.Uint64(b[0:])
 
-		p := make([]byte, sz)
 		if s.connTimeout > 0 {
 			if err := conn.SetReadDeadline(time.Now().Add(s.connTimeout)); err != nil {
 				return
 			}
 		}
-		_, err = io.ReadFull(conn, p)
+		p, err := readFrame(conn, sz)
 		if err != nil {
 			return
 		}
@@ -687,6 +687,28 @@ func (s *Service) handleConn(conn net.Conn) {
 			}
 		}
 	}
+}
+
+// readFrame reads a frame of sz bytes from r. The length comes from the peer
+// and is not trusted: memory is only allocated as data actually arrives, so a
+// bogus length prefix cannot make the node allocate (or fail to allocate) an
+// arbitrary amount of memory.
+func readFrame(r io.Reader, sz uint64) ([]byte, error) {
+	const maxPrealloc = 1 << 20
+	if sz > math.MaxInt64 {
+		return nil, fmt.Errorf("frame length %d too large", sz)
+	}
+	if sz <= maxPrealloc {
+		p := make([]byte, sz)
+		_, err := io.ReadFull(r, p)
+		return p, err
+	}
+	var buf bytes.Buffer
+	buf.Grow(maxPrealloc)
+	if _, err := io.CopyN(&buf, r, int64(sz)); err != nil {
+		return nil, err
+	}
+	return buf.Bytes(), nil
 }
 
 func marshalAndWrite(conn net.Conn, m pb.Message) error {
